@@ -1003,3 +1003,130 @@ Proof.
   fold u. fold cn. unfold sline_direct. rewrite Hs, (sline_default cfg _ _ e He Hf).
   cbn [cn_print n_finished n_total]. rewrite <- !app_assoc. reflexivity.
 Qed.
+
+(* ------------------------------------------------------------------ QUIET *)
+(* BuildConfig::QUIET (used by tests and tools, not reachable from the command line): nothing is
+   printed at all -- not even the FAILED block and the output of a failed command; only Info(). *)
+Lemma quiet_run cfg cs : c_verb cfg = VQuiet -> forallb plain cs = true ->
+  forall cn el idx,
+  exists cn' idx' errs,
+    run_from cfg (mkState cn (mkLp true false [] el []) false idx) cs =
+    (mkState cn' (mkLp true false [] el []) false idx', concat (map info_out cs), errs).
+Proof.
+  intros Hq. assert (Hs : smart cfg = false) by (unfold smart; rewrite Hq; apply andb_false_r).
+  induction cs as [|c cs IH]; intros Hp cn el idx.
+  - exists cn, idx, []. reflexivity.
+  - cbn [forallb] in Hp. apply andb_true_iff in Hp. destruct Hp as [Hc Hcs].
+    cbn [run_from map concat].
+    assert (Hstep : exists cn1 err1, step cfg (mkState cn (mkLp true false [] el []) false idx) c =
+                     (mkState cn1 (mkLp true false [] el []) false (S idx), info_out c, err1)).
+    { destruct c as [e|e|e|e code out| | |b| |m|m|m]; cbn [plain] in Hc; try discriminate;
+        unfold step; cbn [s_dead s_cn s_lp s_idx info_out];
+        try (eexists; eexists; reflexivity).
+      - apply negb_true_iff in Hc. rewrite Hc, Hs. cbn [orb]. eexists; eexists; reflexivity.
+      - apply negb_true_iff in Hc. rewrite Hc, Hq. eexists; eexists; reflexivity. }
+    destruct Hstep as [cn1 [err1 H1]]. rewrite H1.
+    destruct (IH Hcs cn1 el (S idx)) as [cn' [idx' [errs H2]]]. rewrite H2.
+    exists cn', idx', (err1 ++ errs). reflexivity.
+Qed.
+
+Theorem quiet_silent cfg cs : c_verb cfg = VQuiet -> forallb plain cs = true ->
+  render cfg cs = concat (map info_out cs).
+Proof.
+  intros Hq Hp. unfold render, run, init_state, lp_init.
+  destruct (quiet_run cfg cs Hq Hp (mkCn 0 0 0 0) true O) as [cn' [idx' [errs H]]].
+  rewrite H. reflexivity.
+Qed.
+
+(* ------------------------------------------------------------------ smart terminal, console free *)
+(* On a smart terminal (NORMAL verbosity, a tty, TERM not dumb) status lines overprint each other:
+   "\r" line "ESC[K", elided to the terminal width, printed when a command STARTS and when it
+   finishes.  They leave the cursor behind the line, so every FAILED block / output starts with the
+   newline that ends it ([body] with owed = true) -- the same block structure as on a pipe. *)
+Definition sline_smart (cfg : config) (idx : nat) (cn : counters) (e : edge) : bytes :=
+  let s := sline cfg idx cn e in
+  [b_cr] ++ cstr (match c_width cfg with O => s | w => elide_middle s w end) ++ l_clreol.
+
+Definition spiece (cfg : config) (u : ust) (c : call) : bytes * ust :=
+  let cn := u_cn u in
+  let i := u_idx u in
+  match c with
+  | Started e => (sline_smart cfg i (cn_step cn c) e, mkU (cn_step cn c) true (S i))
+  | Finished e code out =>
+    (sline_smart cfg i (cn_print cn) e ++ fst (body cfg true e code out),
+     mkU (cn_step cn c) (snd (body cfg true e code out)) (S i))
+  | BuildFinished | NewLine => ((if u_owed u then [b_lf] else []), mkU cn false (S i))
+  | Info m => (l_ninja ++ cstr m ++ [b_lf], mkU cn (u_owed u) (S i))
+  | _ => ([], mkU (cn_step cn c) (u_owed u) (S i))
+  end.
+Fixpoint spieces (cfg : config) (u : ust) (cs : list call) : list bytes :=
+  match cs with
+  | [] => []
+  | c :: r => fst (spiece cfg u c) :: spieces cfg (snd (spiece cfg u c)) r
+  end.
+
+Section Smart.
+Variable cfg : config.
+Hypothesis Hsmart : smart cfg = true.
+Hypothesis Hfmt : format_ok cfg.
+
+Lemma smart_verb : c_verb cfg = VNormal.
+Proof.
+  clear Hfmt. unfold smart in Hsmart. apply andb_true_iff in Hsmart. destruct Hsmart as [_ H].
+  destruct (c_verb cfg); try discriminate. reflexivity.
+Qed.
+
+Lemma print_status_smart idx cn b line el out e :
+  print_status cfg idx cn (mkLp b false line el out) e =
+  inl (mkLp false false line el out, sline_smart cfg idx cn e).
+Proof.
+  unfold print_status, sline_smart, sline. rewrite smart_verb.
+  destruct (Hfmt idx cn e) as [l Hl]. rewrite Hl.
+  unfold lp_print. cbn [lp_locked]. rewrite Hsmart. reflexivity.
+Qed.
+
+Lemma step_S u el c :
+  plain c = true ->
+  step cfg (ustate u el) c = (ustate (snd (spiece cfg u c)) el, fst (spiece cfg u c), call_err c).
+Proof.
+  intros Hp. destruct u as [cn ow i].
+  destruct c as [e|e|e|e code out| | |b| |m|m|m]; cbn [plain] in Hp; try discriminate;
+    unfold step, ustate; cbn [s_dead s_cn s_lp s_idx u_cn u_owed u_idx].
+  - reflexivity.
+  - reflexivity.
+  - apply negb_true_iff in Hp. rewrite Hp, Hsmart. cbn [orb]. rewrite print_status_smart.
+    unfold spiece, ok_of. cbn [fst snd u_cn u_owed u_idx s_idx negb]. rewrite app_nil_r. reflexivity.
+  - apply negb_true_iff in Hp. rewrite Hp, smart_verb.
+    rewrite print_status_smart, finish_body_unlocked.
+    unfold spiece, ok_of. cbn [fst snd u_cn u_owed u_idx s_idx negb app]. reflexivity.
+  - reflexivity.
+  - unfold lp_lock. cbn [lp_locked Bool.eqb]. rewrite lp_newline_unlocked, ends_blank_nil.
+    unfold spiece, ok_of. cbn [fst snd u_cn u_owed u_idx s_idx app negb].
+    destruct ow; reflexivity.
+  - rewrite lp_newline_unlocked, ends_blank_nil.
+    unfold spiece, ok_of. cbn [fst snd u_cn u_owed u_idx s_idx app negb].
+    destruct ow; reflexivity.
+  - reflexivity.
+  - reflexivity.
+  - reflexivity.
+Qed.
+
+Lemma run_S cs : forall u el,
+  forallb plain cs = true ->
+  snd (fst (run_from cfg (ustate u el) cs)) = concat (spieces cfg u cs).
+Proof.
+  induction cs as [|c cs IH]; intros u el Hp; [reflexivity|].
+  cbn [forallb] in Hp. apply andb_true_iff in Hp. destruct Hp as [Hc Hcs].
+  cbn [run_from]. rewrite (step_S u el c Hc).
+  specialize (IH (snd (spiece cfg u c)) el Hcs).
+  destruct (run_from cfg (ustate (snd (spiece cfg u c)) el) cs) as [[s2 o2] e2].
+  cbn [fst snd] in IH |- *. rewrite IH. reflexivity.
+Qed.
+End Smart.
+
+Theorem smart_blocks cfg cs :
+  smart cfg = true -> format_ok cfg -> forallb plain cs = true ->
+  render cfg cs = concat (spieces cfg u0 cs).
+Proof.
+  intros Hs Hf Hp. unfold render, run. rewrite init_is_ustate. apply run_S; assumption.
+Qed.
